@@ -3,6 +3,7 @@
 use crate::check;
 use crate::common::*;
 use crate::engine::{guard, Ctx, Kind, Property, SubCheck};
+use crate::fcommon::{force_grid, forced_or};
 use crate::gen::*;
 use crate::inh;
 use oracle::{Big, Hp};
@@ -77,6 +78,7 @@ fn c13_sqrt(ctx: &mut Ctx) {
             }
         }
     };
+    let x = forced_or(ctx, x);
     x.key(ctx);
     note_dd(ctx, "x", x);
     let Some(r) = run_tf(ctx, "sqrt", || inh::sqrt(x.tf())) else { return };
@@ -122,6 +124,7 @@ fn c13_cbrt(ctx: &mut Ctx) {
             Dd::new(if ctx.flag() { -0.0 } else { 0.0 }, if ctx.flag() { -0.0 } else { 0.0 })
         }
     };
+    let x = forced_or(ctx, x);
     x.key(ctx);
     note_dd(ctx, "x", x);
     let Some(r) = run_tf(ctx, "cbrt", || inh::cbrt(x.tf())) else { return };
@@ -210,6 +213,35 @@ fn c13_powi(ctx: &mut Ctx) {
         let hi = if ctx.flag() { -t } else { t };
         dd_at(ctx, hi)
     };
+    c13_powi_eval(ctx, x, n)
+}
+
+/// x = +-j/4 (j <= 128), n in [-40, 40]: the "round" calls users write
+fn c13_powi_grid(ctx: &mut Ctx) {
+    let i = ctx.word();
+    let n = (i % 81) as i32 - 40;
+    let j = i / 81;
+    let x = ((j >> 1) + 1) as f64 / 4.0;
+    ctx.label("arg:exact-grid");
+    c13_powi_eval(ctx, Dd::new(if j & 1 == 1 { -x } else { x }, 0.0), n);
+    ctx.set_nontrivial(true);
+}
+
+fn c13_sqrt_grid(ctx: &mut Ctx) {
+    force_grid(ctx, 16.0, true);
+    c13_sqrt(ctx);
+    ctx.set_nontrivial(true);
+}
+
+fn c13_cbrt_grid(ctx: &mut Ctx) {
+    force_grid(ctx, 16.0, false);
+    c13_cbrt(ctx);
+    ctx.set_nontrivial(true);
+}
+
+fn c13_powi_eval(ctx: &mut Ctx, x: Dd, n: i32) {
+    let an = (n as i64).unsigned_abs();
+    let _ = an;
     x.key(ctx);
     ctx.key_u64(n as u32 as u64);
     note_dd(ctx, "x", x);
@@ -291,13 +323,16 @@ pub fn c13() -> Property {
     let g = |name, eval, quick, thorough| SubCheck { name, kind: Kind::Generated { words: 40, max_items: 0 }, eval, quick, thorough };
     Property {
         id: "C13",
-        rule: "sqrt/cbrt: valid x with hi in [2^-900,2^900] (cbrt both signs), products r*r / r*r*r (perfect powers up to rounding), signed zeros, negative arguments for sqrt; hypot: pairs with hi in [2^-400,2^400] incl. equal/neighbouring/huge-gap relations; oracle decided exactly through k-th powers ((1-b)^k x <= r^k <= (1+b)^k x). powi: n log-uniform in |n| with 0, ±1, ±2, i32::MAX, i32::MIN always present; |x| ~ 2^(L/|n|) with L uniform in [-900,900] so x^n stays in range by construction; reference by 640-bit binary powering. non-trivial = non-zero low word (|n| >= 2 for powi) or a special point; distinct = distinct (x, n)",
+        rule: "sqrt/cbrt: valid x with hi in [2^-900,2^900] (cbrt both signs), products r*r / r*r*r (perfect powers up to rounding), signed zeros, negative arguments for sqrt; hypot: pairs with hi in [2^-400,2^400] incl. equal/neighbouring/huge-gap relations; oracle decided exactly through k-th powers ((1-b)^k x <= r^k <= (1+b)^k x). powi: n log-uniform in |n| with 0, ±1, ±2, i32::MAX, i32::MIN always present; |x| ~ 2^(L/|n|) with L uniform in [-900,900] so x^n stays in range by construction; reference by 640-bit binary powering. non-trivial = non-zero low word (|n| >= 2 for powi) or a special point; distinct = distinct (x, n) Exact-grid sub-checks (complete enumerations): the generated sub-check evaluated at every argument of the form +-k/128 (or k/16, k/64, k/1024, integers, 10^k; see DESIGN 11.5) with a zero low word.",
         assumptions: vec![],
         subchecks: vec![
             g("sqrt", c13_sqrt, 500_000, 10_000_000),
             g("cbrt", c13_cbrt, 500_000, 10_000_000),
             g("hypot", c13_hypot, 500_000, 10_000_000),
             g("powi", c13_powi, 300_000, 8_000_000),
+            SubCheck { name: "sqrt_grid", kind: Kind::Enumerated { n: 1 << 17 }, eval: c13_sqrt_grid, quick: 0, thorough: 0 },
+            SubCheck { name: "cbrt_grid", kind: Kind::Enumerated { n: 1 << 17 }, eval: c13_cbrt_grid, quick: 0, thorough: 0 },
+            SubCheck { name: "powi_grid", kind: Kind::Enumerated { n: 81 * 256 }, eval: c13_powi_grid, quick: 0, thorough: 0 },
         ],
     }
 }
